@@ -318,6 +318,8 @@ fn catalogue<const D: usize>(nv: usize, nc: usize) -> Vec<Fault> {
 }
 
 struct Cn {
+    shapes: AtomicU64,
+    shapes_refused: AtomicU64,
     subjects: AtomicU64,
     injected: AtomicU64,
     level_hits: [AtomicU64; 5],
@@ -356,7 +358,14 @@ fn lib_verdict<K: Kernel<D, Scalar = f64>, const D: usize>(dt: &DtI<K, D>) -> Re
 }
 
 fn judge<K: Kernel<D, Scalar = f64>, const D: usize>(rep: &Report, cn: &Cn, label: &str, faults: &[Fault], dt: &DtI<K, D>, replay: &dyn Fn() -> Value) {
-    let fclass: Vec<String> = faults.iter().map(class).collect();
+    judge_labelled(rep, cn, label, faults, dt, replay, None);
+}
+
+fn judge_labelled<K: Kernel<D, Scalar = f64>, const D: usize>(rep: &Report, cn: &Cn, label: &str, faults: &[Fault], dt: &DtI<K, D>, replay: &dyn Fn() -> Value, shape: Option<&str>) {
+    let fclass: Vec<String> = match shape {
+        Some(sh) => vec![format!("shape:{sh}")],
+        None => faults.iter().map(class).collect(),
+    };
     let lv = match lib_verdict(dt) {
         Ok(v) => v,
         Err(p) => {
@@ -432,6 +441,249 @@ fn judge<K: Kernel<D, Scalar = f64>, const D: usize>(rep: &Report, cn: &Cn, labe
     }
 }
 
+
+// ---------------------------------------------------------------------------------------------------------
+// Shapes: abstract complexes that no single local fault produces (pinched ridges / vertices in D >= 4, ...),
+// obtained by coning lower-dimensional (faulted) complexes and loaded through the public Deserialize impl.
+// ---------------------------------------------------------------------------------------------------------
+
+/// abstract complex with coordinates
+#[derive(Clone, Debug)]
+struct Cx<const D: usize> {
+    verts: Vec<[f64; D]>,
+    cells: Vec<Vec<usize>>,
+}
+
+fn cx_of<const D: usize>(s: &vcore::snap::Snap<D>) -> Cx<D> {
+    Cx { verts: s.verts.iter().map(|v| v.c).collect(), cells: s.cells.iter().map(|c| c.vi.clone()).collect() }
+}
+
+/// cone over `b` with apex (1, .., 1, 4); E must be D + 1
+fn cone<const D: usize, const E: usize>(b: &Cx<D>) -> Cx<E> {
+    assert_eq!(E, D + 1);
+    let mut verts: Vec<[f64; E]> = b.verts.iter().map(|p| std::array::from_fn(|i| if i < D { p[i] } else { 0.0 })).collect();
+    let apex = verts.len();
+    verts.push(std::array::from_fn(|i| if i < D { 1.0 } else { 4.0 }));
+    let cells = b.cells.iter().map(|c| { let mut c = c.clone(); c.push(apex); c }).collect();
+    Cx { verts, cells }
+}
+
+/// Load through `Deserialize for Tds` (vertex order of each cell fixed so that non-flat cells are positively oriented).
+fn load_cx<const D: usize>(cx: &Cx<D>, g: TopologyGuarantee) -> Result<DtI<FastKernel<f64>, D>, String> {
+    let vu: Vec<String> = (0..cx.verts.len()).map(|i| uuid_v4_from(0x5000 + i as u128).to_string()).collect();
+    let mut vertices = vec![json!({"value": null, "version": 0})];
+    for (i, p) in cx.verts.iter().enumerate() {
+        vertices.push(json!({"value": {"data": i as i32, "point": p.to_vec(), "uuid": vu[i]}, "version": 1}));
+    }
+    let mut cells = vec![json!({"value": null, "version": 0})];
+    let mut cell_vertices = serde_json::Map::new();
+    for (i, c) in cx.cells.iter().enumerate() {
+        if c.len() != D + 1 || c.iter().any(|&k| k >= cx.verts.len()) {
+            return Err("not a pure D-complex".into());
+        }
+        let mut c = c.clone();
+        let pts: Vec<&[f64]> = c.iter().map(|&k| &cx.verts[k][..]).collect();
+        if vcore::exact::orient(&pts).sign < 0 {
+            c.swap(0, 1);
+        }
+        let cu = uuid_v4_from(0x9_0000 + i as u128).to_string();
+        cells.push(json!({"value": {"uuid": cu}, "version": 1}));
+        cell_vertices.insert(cu, json!(c.iter().map(|&k| vu[k].clone()).collect::<Vec<_>>()));
+    }
+    let doc = json!({"vertices": vertices, "cells": cells, "cell_vertices": cell_vertices});
+    let text = doc.to_string();
+    match guarded(|| serde_json::from_str::<delaunay::core::triangulation_data_structure::Tds<f64, i32, (), D>>(&text)) {
+        Ok(Ok(t)) => Ok(delaunay::core::delaunay_triangulation::DelaunayTriangulation::from_tds_with_topology_guarantee(t, FastKernel::default(), g)),
+        Ok(Err(e)) => Err(format!("refused: {e}")),
+        Err(p) => Err(format!("panic: {p}")),
+    }
+}
+
+fn judge_cx<const D: usize>(rep: &Report, cn: &Cn, label: &str, cx: &Cx<D>, prov: &Value) {
+    for g in [TopologyGuarantee::PLManifold, TopologyGuarantee::Pseudomanifold, TopologyGuarantee::PLManifoldStrict] {
+        match load_cx(cx, g) {
+            Ok(dt) => {
+                cn.shapes.fetch_add(1, Ordering::Relaxed);
+                let fake = [Fault::IsolatedVertex; 0];
+                let rj = || json!({"D": D, "shape": label, "provenance": prov, "guarantee": format!("{g:?}"), "vertices": cx.verts.iter().map(|p| p.to_vec()).collect::<Vec<_>>(), "cells": cx.cells});
+                judge_labelled(rep, cn, label, &fake, &dt, &rj, Some(label));
+            }
+            Err(e) if e.starts_with("panic") => {
+                rep.violation(Finding { signature: json!({"check": "load_panicked", "shape": label, "D": D}), description: format!("loading shape {label}: {e}"), replay: json!({"D": D, "shape": label, "provenance": prov, "vertices": cx.verts.iter().map(|p| p.to_vec()).collect::<Vec<_>>(), "cells": cx.cells}) });
+            }
+            Err(_) => {
+                cn.shapes_refused.fetch_add(1, Ordering::Relaxed);
+            }
+        }
+    }
+}
+
+/// topological single faults of the catalogue, applied to the abstract complex
+fn cx_faults<const D: usize>(b: &Cx<D>) -> Vec<(String, Cx<D>)> {
+    let mut out = vec![("none".to_string(), b.clone())];
+    let nv = b.verts.len();
+    for a in 0..nv {
+        for w in 0..nv {
+            if a != w {
+                let mut c = b.clone();
+                let mut any = false;
+                for cell in &mut c.cells {
+                    if cell.contains(&a) && !cell.contains(&w) {
+                        for k in cell.iter_mut() {
+                            if *k == a {
+                                *k = w;
+                                any = true;
+                            }
+                        }
+                    }
+                }
+                if any {
+                    out.push((format!("merge({a}->{w})"), c));
+                }
+            }
+        }
+    }
+    for ci in 0..b.cells.len() {
+        let mut c = b.clone();
+        c.cells.remove(ci);
+        if !c.cells.is_empty() {
+            out.push((format!("remove_cell({ci})"), c));
+        }
+        for slot in 0..=D {
+            for by in 0..nv {
+                if !b.cells[ci].contains(&by) {
+                    let mut c = b.clone();
+                    c.cells[ci][slot] = by;
+                    out.push((format!("replace({ci},{slot},{by})"), c));
+                }
+            }
+        }
+    }
+    out
+}
+
+/// every base complex (library-built subject of dimension B + each topological fault), coned up to dimension 5
+fn run_shapes<const B: usize, const C1: usize, const C2: usize, const C3: usize>(rep: &Report, cn: &Cn, family: &str, alphabet: &[[f64; B]], sizes: std::ops::RangeInclusive<usize>, stride: usize, bounds: &mut Vec<Value>) {
+    let mut sets: Vec<Vec<[f64; B]>> = Vec::new();
+    for k in sizes.clone() {
+        for sub in subsets(alphabet.len(), k) {
+            sets.push(sub.iter().map(|&i| alphabet[i]).collect());
+        }
+    }
+    let sets: Vec<Vec<[f64; B]>> = sets.into_iter().step_by(stride).collect();
+    sets.par_iter().for_each(|pts| {
+        let Some(seed) = corpus::build::<FastKernel<f64>, B>(pts, TopologyGuarantee::PLManifold) else { return };
+        let base = cx_of(&snap_of(&seed));
+        for (fname, b) in cx_faults(&base) {
+            let prov = json!({"base_points": pts.iter().map(|p| p.to_vec()).collect::<Vec<_>>(), "base_fault": fname});
+            let c1: Cx<C1> = cone::<B, C1>(&b);
+            judge_cx(rep, cn, &format!("cone^1(D{B}:{})", fname.split('(').next().unwrap_or("?")), &c1, &prov);
+            if C2 == C1 + 1 {
+                let c2: Cx<C2> = cone::<C1, C2>(&c1);
+                judge_cx(rep, cn, &format!("cone^2(D{B}:{})", fname.split('(').next().unwrap_or("?")), &c2, &prov);
+                if C3 == C2 + 1 {
+                    let c3: Cx<C3> = cone::<C2, C3>(&c2);
+                    judge_cx(rep, cn, &format!("cone^3(D{B}:{})", fname.split('(').next().unwrap_or("?")), &c3, &prov);
+                }
+            }
+        }
+    });
+    bounds.push(json!({"family": family, "base_dimension": B, "base_point_sets": sets.len(), "subset_sizes": format!("{sizes:?}"), "stride": stride, "coned_to": [C1, C2, C3]}));
+}
+
+/// 2-D complex whose vertex r has a link of two disjoint circles, everything else regular: two closed fans around r
+/// (radius 2 and radius 6; they overlap geometrically but share only r), joined facet-to-facet by a strip of four
+/// triangles. Adjacent triangles lie on opposite sides of their common edge, so the orientation is coherent. Coned, r
+/// becomes a pinched ridge (link = two circles) while every facet has degree <= 2 and the dual graph is connected.
+fn pinched_fan_2d(with_second_fan: bool) -> Cx<2> {
+    let mut verts: Vec<[f64; 2]> = vec![[0.0, 0.0], [2.0, 0.0], [0.0, 2.0], [-2.0, 0.0], [0.0, -2.0], [6.0, 0.0], [0.0, 6.0], [-6.0, 0.0], [0.0, -6.0], [1.0, 2.0], [10.0, 3.0]];
+    let (r, c, d, x, y) = (0usize, [1usize, 2, 3, 4], [5usize, 6, 7, 8], 9usize, 10usize);
+    let mut cells = Vec::new();
+    for i in 0..4 {
+        cells.push(vec![r, c[i], c[(i + 1) % 4]]);
+    }
+    // strip from edge (c0, c1) to edge (d0, d3), approached from outside the second fan
+    cells.extend([vec![c[0], c[1], x], vec![c[1], x, y], vec![x, y, d[0]], vec![y, d[0], d[3]]]);
+    if with_second_fan {
+        for i in 0..4 {
+            cells.push(vec![r, d[i], d[(i + 1) % 4]]);
+        }
+    } else {
+        verts.truncate(11);
+    }
+    Cx { verts, cells }
+}
+
+/// 3-D complex whose vertex v has a link of two disjoint spheres (two closed octahedral stars of radius 2 and 6
+/// sharing only v) joined by a chain of five tetrahedra; every edge link is a single circle or arc.
+fn pinched_star_3d(with_second_star: bool) -> Cx<3> {
+    let mut verts: Vec<[f64; 3]> = vec![[0.0; 3]];
+    for rad in [2.0, 6.0] {
+        for ax in 0..3 {
+            for sg in [1.0, -1.0] {
+                let mut p = [0.0; 3];
+                p[ax] = sg * rad;
+                verts.push(p);
+            }
+        }
+    }
+    // index of (sign * rad) e_ax: 1 + 6 * ring + 2 * ax + (sign < 0)
+    let idx = |ring: usize, ax: usize, neg: bool| 1 + 6 * ring + 2 * ax + usize::from(neg);
+    verts.push([-9.0, 3.0, 9.0]);
+    verts.push([-9.0, -9.0, -9.0]);
+    let (x, y) = (13usize, 14usize);
+    let mut cells = Vec::new();
+    for ring in 0..(1 + usize::from(with_second_star)) {
+        for sx in [false, true] {
+            for sy in [false, true] {
+                for sz in [false, true] {
+                    cells.push(vec![0, idx(ring, 0, sx), idx(ring, 1, sy), idx(ring, 2, sz)]);
+                }
+            }
+        }
+    }
+    let (p0, p1, p2) = (idx(0, 0, false), idx(0, 1, false), idx(0, 2, false));
+    let (q0, q1, q2) = (idx(1, 2, false), idx(1, 1, true), idx(1, 0, true));
+    cells.extend([vec![p0, p1, p2, x], vec![p1, p2, x, y], vec![p2, x, y, q0], vec![x, y, q0, q1], vec![y, q0, q1, q2]]);
+    Cx { verts, cells }
+}
+
+/// hand-built shapes and all their cones up to D = 5, plus every topological single fault of each
+fn run_extra_shapes(rep: &Report, cn: &Cn, bounds: &mut Vec<Value>) {
+    let mut n = 0u64;
+    for second in [true, false] {
+        let name = if second { "pinched_fan" } else { "fan_with_strip" };
+        for (fname, b) in cx_faults(&pinched_fan_2d(second)) {
+            let fclass = fname.split('(').next().unwrap_or("?").to_string();
+            let prov = json!({"shape": name, "fault": fname});
+            judge_cx(rep, cn, &format!("{name}(D2:{fclass})"), &b, &prov);
+            let c1: Cx<3> = cone::<2, 3>(&b);
+            judge_cx(rep, cn, &format!("cone^1({name}:{fclass})"), &c1, &prov);
+            let c2: Cx<4> = cone::<3, 4>(&c1);
+            judge_cx(rep, cn, &format!("cone^2({name}:{fclass})"), &c2, &prov);
+            let c3: Cx<5> = cone::<4, 5>(&c2);
+            judge_cx(rep, cn, &format!("cone^3({name}:{fclass})"), &c3, &prov);
+            n += 4;
+        }
+    }
+    for second in [true, false] {
+        let name = if second { "pinched_star" } else { "star_with_chain" };
+        let base = pinched_star_3d(second);
+        let variants: Vec<(String, Cx<3>)> = if second { cx_faults(&base).into_iter().step_by(7).collect() } else { vec![("none".into(), base)] };
+        for (fname, b) in variants {
+            let fclass = fname.split('(').next().unwrap_or("?").to_string();
+            let prov = json!({"shape": name, "fault": fname});
+            judge_cx(rep, cn, &format!("{name}(D3:{fclass})"), &b, &prov);
+            let c1: Cx<4> = cone::<3, 4>(&b);
+            judge_cx(rep, cn, &format!("cone^1({name}:{fclass})"), &c1, &prov);
+            let c2: Cx<5> = cone::<4, 5>(&c1);
+            judge_cx(rep, cn, &format!("cone^2({name}:{fclass})"), &c2, &prov);
+            n += 3;
+        }
+    }
+    bounds.push(json!({"family": "hand-built pinched fan (2-D) / pinched star (3-D), with and without the second fan / star, each with every topological single fault, coned up to D=5", "complexes": n}));
+}
+
 fn run_set<K: Kernel<D, Scalar = f64>, const D: usize>(rep: &Report, cn: &Cn, kname: &str, family: &str, pts: &[[f64; D]], guarantees: &[TopologyGuarantee], pairs: bool) {
     for &g in guarantees {
         let Some(seed) = corpus::build::<K, D>(pts, g) else { continue };
@@ -491,7 +743,7 @@ fn main() {
     vcore::exact::self_check();
     let thorough = args.tier == Tier::Thorough;
     let x = usize::from(thorough);
-    let cn = Cn { subjects: AtomicU64::new(0), injected: AtomicU64::new(0), level_hits: std::array::from_fn(|_| AtomicU64::new(0)), benign: AtomicU64::new(0), uncertain: AtomicU64::new(0) };
+    let cn = Cn { shapes: AtomicU64::new(0), shapes_refused: AtomicU64::new(0), subjects: AtomicU64::new(0), injected: AtomicU64::new(0), level_hits: std::array::from_fn(|_| AtomicU64::new(0)), benign: AtomicU64::new(0), uncertain: AtomicU64::new(0) };
     let mut bounds = Vec::new();
     let all_g = [TopologyGuarantee::PLManifold, TopologyGuarantee::Pseudomanifold, TopologyGuarantee::PLManifoldStrict];
     let pl = [TopologyGuarantee::PLManifold];
@@ -505,6 +757,11 @@ fn main() {
     run_family::<4>(&rep, &cn, "4*cube alphabet subsets", &a4, 5..=6, &pl, false, &mut bounds);
     let a5: Vec<[f64; 5]> = alpha::cube_alphabet::<5>().into_iter().take(8).map(|p| p.map(|v| v * 5.0)).collect();
     run_family::<5>(&rep, &cn, "5*cube alphabet subsets", &a5, 6..=6 + x, &pl, false, &mut bounds);
+    // shapes: cones (to D = 3, 4, 5) over every D=2 subject + topological fault, cones (to D = 4, 5) over D=3 ones
+    let g2s: Vec<[f64; 2]> = alpha::grid::<2>(3).into_iter().map(|p| [p[0] * 4.0, p[1] * 4.0]).collect();
+    run_shapes::<2, 3, 4, 5>(&rep, &cn, "cones over 4*G2(3) subsets", &g2s, 4..=5, if thorough { 1 } else { 5 }, &mut bounds);
+    run_shapes::<3, 4, 5, 0>(&rep, &cn, "cones over 6*cube3+centre subsets", &c3, 5..=5 + x, if thorough { 1 } else { 7 }, &mut bounds);
+    run_extra_shapes(&rep, &cn, &mut bounds);
     let inj = cn.injected.load(Ordering::Relaxed);
     let hits: Vec<u64> = cn.level_hits.iter().map(|a| a.load(Ordering::Relaxed)).collect();
     if inj < 10_000 || hits[1] == 0 || hits[2] == 0 || hits[3] == 0 {
@@ -516,6 +773,8 @@ fn main() {
         "rule": "every fault of the catalogue (27 kinds: non-finite coordinate, nil uuid, cell with missing / extra / repeated vertex, short neighbour buffer, uuid-map entry removed / redirected, cell referencing a removed vertex, dangling / wrong incident cell, duplicate cell, neighbour slot cleared / invented / wrong cell / dangling / rotated, vertex slots swapped with and without neighbour slots, raw cell removal, isolated vertex, two vertices identified, cell vertex replaced, vertex moved onto / across the opposite facet / far away) at every location of every batch-constructed subject (all three guarantees on D=2,3), plus a strided set of fault pairs on complexes with <= 4 cells; non-trivial = the reference assigns an owning level (lowest violated level)",
         "exhaustive": true,
         "subjects": cn.subjects.load(Ordering::Relaxed),
+        "shapes_judged": cn.shapes.load(Ordering::Relaxed),
+        "shapes_refused_at_load": cn.shapes_refused.load(Ordering::Relaxed),
         "faults_injected": inj,
         "owning_level_histogram": {"benign": hits[0], "L1": hits[1], "L2": hits[2], "L3": hits[3], "L3_completion": hits[4]},
         "geometric_verdicts_inside_band_skipped": cn.uncertain.load(Ordering::Relaxed),
